@@ -66,10 +66,16 @@ def prove_laws(run):
         shutil.copy(os.path.join(SPEC_DIR, "AlgebraProofs.tla"), wd)
         # (the proof manager's parser unpacks the standard modules into java.io.tmpdir: keep that inside the scratch directory)
         env = dict(os.environ, TMPDIR=wd, JAVA_TOOL_OPTIONS=("-Djava.io.tmpdir=%s " % wd + os.environ.get("JAVA_TOOL_OPTIONS", "")).strip())
-        r = subprocess.run(["timeout", "600", "tlapm", "--cleanfp", "AlgebraProofs.tla"], cwd=wd, env=env, stdout=subprocess.PIPE, stderr=subprocess.STDOUT, text=True)
+        # the back-end provers run under time-outs of their own: on a loaded machine an obligation may time out, so a failed
+        # attempt is repeated with the time-outs stretched (and fewer threads) before it counts
+        m = None
+        for extra in ([], ["--stretch", "4", "--threads", "4"], ["--stretch", "10", "--threads", "2"]):
+            r = subprocess.run(["timeout", "1500", "tlapm", "--cleanfp"] + extra + ["AlgebraProofs.tla"], cwd=wd, env=env, stdout=subprocess.PIPE, stderr=subprocess.STDOUT, text=True)
+            m = re.search(r"All (\d+) obligations proved", r.stdout)
+            if m:
+                break
     finally:
         shutil.rmtree(wd, ignore_errors=True)
-    m = re.search(r"All (\d+) obligations proved", r.stdout)
     if not m:
         raise MachineryError("TLAPS no longer proves the conversion laws (a defect of the specification, not a verdict about the code):\n" + r.stdout[-1500:])
     run.notes["tlaps"] = {"module": "AlgebraProofs.tla", "obligations_proved": int(m.group(1)),
